@@ -56,7 +56,7 @@ def build_ops(ctx: Ctx, table: list, rng: random.Random) -> list[dict]:
     return ops
 
 
-def cross_process(ctx: Ctx, ops: list[dict], events: list[dict]) -> int:
+def cross_process(ctx: Ctx, ops: list[dict], events: list[dict], repro: list[dict]) -> int:
     """Identical result in other processes and under other hash seeds."""
     sample = [i for i in range(0, len(ops), max(1, len(ops) // (400 if ctx.quick else 4000)))]
     sub = [ops[i] for i in sample]
@@ -72,13 +72,11 @@ def cross_process(ctx: Ctx, ops: list[dict], events: list[dict]) -> int:
         outs = json.loads(op.read_text())
         for i, o in zip(sample, outs):
             e = events[i]
-            same = (o["k"] == e["out"]["k"]) and (o.get("val") == e["out"].get("val")) and \
-                   (o.get("cls") == e["out"].get("cls"))
-            if not same:
-                bad += 1
-                ctx.violate("not-reproducible-across-processes",
-                            {"clause": "not-reproducible-across-processes", "op": e["op"]},
-                            dict(calls.describe_event(e), hashseed=hs, other=o))
+            # judged by JudgeRandom!ReproOutcome: the two observations as comparable values
+            def obs(x):
+                return [ord(c) for c in json.dumps([x["k"], x.get("val"), x.get("cls")])]
+            repro.append({"op": "repro", "where": "elsewhere", "i": len(repro), "first": obs(e["out"]), "second": obs(o),
+                          "call": i, "hashseed": hs, "other": o})
     return len(sample) * 3
 
 
@@ -96,11 +94,13 @@ def run(ctx: Ctx) -> dict:
     events = calls.execute(ctx, ops, "c13")
     mism = calls.validate(ctx, "TraceRandom", events, env, "c13", per_shard=1500 if ctx.quick else 4000)
     calls.report(ctx, mism, None, keyfn)
-    for e in events:
-        if e["out"]["k"] == "ok" and not e["out"].get("again_same", True):
-            ctx.violate("not-reproducible-in-process", {"clause": "not-reproducible-in-process", "op": e["op"]},
-                        calls.describe_event(e))
-    compared = cross_process(ctx, ops, events)
+    repro = [{"op": "repro", "where": "process", "i": n, "first": [1], "second": [1 if e["out"].get("again_same", True) else 0],
+              "call": n} for n, e in enumerate(events) if e["out"]["k"] == "ok"]
+    compared = cross_process(ctx, ops, events, repro)
+    for r, clause, _ in calls.validate(ctx, "TraceRandom", repro, env, "c13repro", per_shard=20000):
+        e = events[r["call"]]
+        ctx.violate(clause, {"clause": clause, "op": e["op"]},
+                    dict(calls.describe_event(e), hashseed=r.get("hashseed"), other=r.get("other")))
     okn = sum(1 for e in events if e["out"]["k"] == "ok")
     over = sum(1 for e in events if e["out"].get("cls") == "GenerateRandomOverflowError")
     if okn == 0:
